@@ -93,13 +93,14 @@ type L1Gen struct {
 	started  bool
 	initDone bool
 	usedExit map[common.Hash]bool
+	hadExit  map[uint32]map[common.Hash]bool // every exit root a rollup ever had (all forks)
 }
 
 func NewL1Gen(g *rand.Rand, o L1Opts) *L1Gen {
 	if len(o.RollupIDs) == 0 {
 		o.RollupIDs = []uint32{1, 2, 3, 7, 1 << 16, 1<<32 - 1}
 	}
-	return &L1Gen{G: g, O: o, Ref: NewRefL1(), num: o.StartBlock, usedExit: map[common.Hash]bool{}}
+	return &L1Gen{G: g, O: o, Ref: NewRefL1(), num: o.StartBlock, usedExit: map[common.Hash]bool{}, hadExit: map[uint32]map[common.Hash]bool{}}
 }
 
 // ResetTo rewinds the generator's reference to the given (surviving) blocks and continues from
@@ -164,9 +165,23 @@ func (l *L1Gen) Next() aggsync.Block {
 				case 0: // zero exit root
 				case 1: // unchanged exit root (if any)
 					exit = cur[id]
+				case 2: // the exit root another rollup currently has (e.g. two rollups with identical exit
+					// trees): identical leaves at different positions share content-addressed tree nodes.
+					// Only if this rollup never had that value (an exit root cannot return to an earlier value)
+					exit = RandHash(g)
+					for _, other := range l.O.RollupIDs {
+						if v, ok := cur[other]; ok && other != id && !l.hadExit[id][v] {
+							exit = v
+							break
+						}
+					}
 				default:
 					exit = RandHash(g)
 				}
+				if l.hadExit[id] == nil {
+					l.hadExit[id] = map[common.Hash]bool{}
+				}
+				l.hadExit[id][exit] = true
 				if exit != (common.Hash{}) {
 					cur[id] = exit
 				}
